@@ -10,7 +10,7 @@ from .. import env, gen, observe
 from ..canon import diff, fingerprint
 from ..harness import Disc, Sub
 from ..refdb import RefDB
-from ..observe import key_of, relkey
+from ..observe import key_of, relkey, _raised
 
 PROPERTY = 'C11'
 LEVEL = 'exploration'
@@ -24,12 +24,17 @@ RULE = ('Hypothesis draws a base lexicon (2-4 synsets, 2-6 senses) and, half of 
         'in scope): relation_map key set/values/metadata, relations(*t), get_related(*t), '
         'get_related_synsets(*t), hypernyms/hyponyms/holonyms/meronyms as exact duplicate-free '
         'target sets; closure(*t) = reachable set, each once; relation_paths(*t) yields only simple, '
-        'correctly linked paths; generators are consumed under a cap and a wall-clock guard. '
-        'Non-trivial: some entity has >=2 outgoing relations involving a cycle, a parallel pair or a '
+        'correctly linked paths; generators are consumed under a cap and a wall-clock guard. Sub '
+        'closure-expanded: a sparse lexicon expanded over others (C12\'s generator; constructed '
+        'chains through two concepts the lexicon lacks; an expand lexicon reusing its synset ids): '
+        'closure(*t) == set reachable on the ILI-mapped reference graph, real synsets once each, '
+        'placeholders identified by ILI. Non-trivial: some entity has >=2 outgoing relations involving a cycle, a parallel pair or a '
         'duplicate; distinct by (lexicons, scope).')
 ASSUMPTIONS = [
     'identifiers are unique across the lexicons of a case',
-    'expand lexicons are switched off (expand=""); ILI-mediated relations are C12',
+    'sub relations: expand lexicons are switched off (expand=""); ILI-mediated relations are C12; '
+    'sub closure-expanded: how often a placeholder of one ILI is yielded is left open (wn tells '
+    'apart placeholders created from sources of different lexicons)',
     'relation_paths: only simplicity/linkage/termination are asserted (C13 asserts completeness)',
 ]
 
@@ -318,6 +323,114 @@ def _closure_and_paths(view, table, rent, ent, names, ts, out):
             break
 
 
+# -- closure over the interlingual graph (placeholders are entities too) -----------------
+
+_XTYPES = [('hypernym',), ('hypernym', 'instance_hypernym'), ('hyponym',), ('similar', 'zz_rel')]
+
+
+@st.composite
+def _x_cases(draw):
+    """C12's lexicons; half of the time with a constructed chain L-s0 -> gap -> gap [-> L-s?]."""
+    from . import c12
+    case = draw(c12._cases())
+    E1, L = case['lexicons']['E:1'], case['lexicons']['L:1']
+    if len(E1['synsets']) >= 3 and draw(st.booleans()):
+        a, g1, g2 = E1['synsets'][:3]
+        a['ili'] = L['synsets'][0]['ili'] = 'i1'
+        g1['ili'], g2['ili'] = 'ix', 'iy'          # no synset of L carries these
+        rt = draw(st.sampled_from(['hypernym', 'hyponym', 'similar']))
+        a.setdefault('relations', []).append({'target': g1['id'], 'relType': rt, 'meta': None})
+        g1.setdefault('relations', []).append({'target': g2['id'], 'relType': rt, 'meta': None})
+        back = draw(st.sampled_from([None] + [x['id'] for x in E1['synsets']]))
+        if back:
+            g2.setdefault('relations', []).append({'target': back, 'relType': rt, 'meta': None})
+        case['selection'] = draw(st.sampled_from(['L:1', 'L:1', None]))
+        case['expand'] = draw(st.sampled_from(['E:1', '*']))
+    if draw(st.integers(0, 2)) == 0:
+        # E:1 reuses L's synset ids: entities of two lexicons with one id are different entities
+        ren = {x['id']: f'L-s{i}' for i, x in enumerate(E1['synsets'])}
+        for x in E1['synsets']:
+            x['id'] = ren[x['id']]
+            for r in x.get('relations', []):
+                r['target'] = ren[r['target']]
+        if draw(st.booleans()):
+            case['selection'] = 'L:1 E:1'
+            if len(L['synsets']) >= 2 and draw(st.booleans()):
+                # L-s0 reaches, through E:1, both L:1|L-s1 and E:1|L-s1
+                e0, e1 = E1['synsets'][:2]
+                e0['ili'] = L['synsets'][0]['ili'] = 'i1'
+                e1['ili'] = L['synsets'][1]['ili'] = 'i2'
+                e0.setdefault('relations', []).append(
+                    {'target': e1['id'], 'relType': 'hypernym', 'meta': None})
+                if case['expand'] == '':
+                    case['expand'] = 'E:1'
+    return case
+
+
+def _x_reach(view, rss, names):
+    """Reference closure on the mapped graph: key strings reachable in >= 1 steps."""
+    from . import c12
+    reach, todo = [], list(c12._related(view, rss, names, rss.owner))
+    while todo:
+        k = todo.pop(0)
+        ks = c12._kstr(k)
+        if ks not in reach:
+            reach.append(ks)
+            todo.extend(c12._related(view, c12._node_of(view, k), names, rss.owner))
+    return reach
+
+
+def _x_classify(case):
+    from . import c12
+    ref = RefDB()
+    for spec in case['order']:
+        ref.add_resource({'lmf_version': '1.1', 'lexicons': [case['lexicons'][spec]]})
+    view = c12._view(ref, case)
+    tags = set()
+    for rss in view.synsets():
+        for names in _XTYPES:
+            reach = _x_reach(view, rss, names)
+            ph = [k for k in reach if k.startswith('*INFERRED*')]
+            if ph:
+                tags.add('closure-through-placeholder')
+            if len(ph) >= 2:
+                tags.add('closure-through-2-placeholders')
+            ids = [k.partition('|')[2] for k in reach if not k.startswith('*INFERRED*')]
+            if len(set(ids)) < len(ids):
+                tags.add('closure-reaches-one-id-in-two-lexicons')
+    return bool(tags), sorted(tags)
+
+
+def _x_oracle(case):
+    from . import c12
+    ref = c12._setup(case)
+    view = c12._view(ref, case)
+    w, _warns = observe.make_wordnet(case['selection'], None, case['expand'])
+    if _raised(w):
+        return [Disc('wordnet-raises', '', 'Wordnet object', w)]
+    out: list[Disc] = []
+    bykey = {key_of(x): x for x in w.synsets()}
+    for rss in view.synsets():
+        ss = bykey.get(rss.key)
+        if ss is None:
+            continue
+        for names in _XTYPES:
+            reach = _x_reach(view, rss, names)
+            got = [c12._kstr(key_of(t)) for t in _take(ss.closure(*names), 2 * len(reach) + 2)]
+            # real synsets once each; a placeholder is identified by its ILI here while wn
+            # tells apart placeholders created from sources of different lexicons, so how
+            # often one is yielded is left open
+            real = sorted(k for k in got if not k.startswith('*INFERRED*'))
+            ph = sorted({k for k in got if k.startswith('*INFERRED*')})
+            got = sorted(real + ph)
+            if got != sorted(reach):
+                out.append(Disc('synset.closure-expanded', f"closure({','.join(names)})",
+                                sorted(reach), sorted(got), note=rss.key))
+        if len(out) > 6:
+            break
+    return out
+
+
 def _sample(case):
     return case
 
@@ -328,4 +441,11 @@ SUBS = [
         fingerprint=lambda c: fingerprint([c['resource'], c['scope']]),
         require_tags=('cycle', 'self-loop', 'exact-duplicate', 'parallel-dc-type',
                       'scope:ext', 'scope:default', 'scope:base+ext')),
+    Sub('closure-expanded', _x_oracle, _x_classify,
+        strategy=lambda tier: _x_cases(),
+        budget={'quick': 120, 'thorough': 2000}, case_timeout=60.0, timeout_is_violation=True,
+        fingerprint=lambda c: fingerprint([c['lexicons'], c['order'], c['selection'],
+                                           c['expand']]),
+        require_tags=('closure-through-2-placeholders',
+                      'closure-reaches-one-id-in-two-lexicons')),
 ]
